@@ -70,12 +70,8 @@ def matcherBody (a : MatcherArgs) (t : Option TokObj) (toks : TokFn) (sim : SimA
                       rOut := findOutputAttributeIndices rProj rOut,
                       hasOut := lOut.isSome || rOut.isSome }
   let tokFn : Option (String → List Tok) := t.map (fun tk => toks tk.returnSet)
-  let cache := match tokFn with
-    | some tk =>
-      if (l.rows.length + r.rows.length : Nat) < c.rows.length * 2 then
-        some (generateTokens lRows lKeyIdx lAttrIdx tk, generateTokens rRows rKeyIdx rAttrIdx tk)
-      else none
-    | none => none
+  let cache ← tokenCache tokFn (decide ((l.rows.length + r.rows.length : Nat) < c.rows.length * 2))
+                lRows rRows lKeyIdx lAttrIdx rKeyIdx rAttrIdx
   let header := "_id" :: (getOutputHeader a.lKey a.rKey lOut rOut a.lPre a.rPre ++
                   (if a.outSimScore then ["_sim_score"] else []))
   let chunks ← (chunksFor c.rows a.nJobs cpu).mapM (fun ch => do
@@ -512,14 +508,51 @@ theorem applyMatcher_rows' (a : MatcherArgs) (t : Option TokObj) (toks : TokFn) 
     (c l r : Frame) (hv : validateMatcher a t = .ok (c, l, r))
     (hl : ∀ cr ∈ c.rows, cr.cell (c.colIdx a.candLKey) ∈ l.col a.lKey)
     (hr : ∀ cr ∈ c.rows, cr.cell (c.colIdx a.candRKey) ∈ r.col a.rKey)
-    (hlen : c.rows.length < 2 ^ 40) :
+    (hlen : c.rows.length < 2 ^ 40)
+    (hstr : t.isSome → Props.StrColumn l a.lAttr ∧ Props.StrColumn r a.rAttr) :
     ∃ f, applyMatcher a t toks sim cpu = .ok f ∧
       f.columns = (if c.rows.isEmpty then c.columns else matcherHeader a) ∧
       f.rows = c.rows.filterMap (matcherTableSpec a t toks sim c l r) := by
   have hV := (validateMatcher_ok_iff a t c l r).1 hv
   obtain ⟨hv1, hv2, hv3, hv4, hv5, hv6, hv7, hv8, hv9, hv10, hv11⟩ := hV.validations
   exact applyMatcher_rows a t toks sim cpu c l r hV.candset hV.ltable hV.rtable hv1 hv2 hv3 hv4 hv5 hv6 hv7 hv8 hv9
-    hv10 hv11 hl hr (chunksFor_flatten _ _ _ hlen)
+    hv10 hv11 hl hr (chunksFor_flatten _ _ _ hlen) hstr
+
+/-- the token cache raises TypeError iff it is built (tokenizer given, `useCache`) and a cell of one of the two
+    columns is neither missing nor a string -/
+theorem tokenCache_typeErr (tk : String → List Tok) (lRows rRows : List Row) (lKeyIdx lAttrIdx rKeyIdx rAttrIdx : Nat)
+    (h : ¬ (StrCells lRows lAttrIdx ∧ StrCells rRows rAttrIdx)) :
+    tokenCache (some tk) true lRows rRows lKeyIdx lAttrIdx rKeyIdx rAttrIdx = .error .typeErr := by
+  unfold tokenCache
+  have : (joinCellsOk lRows lAttrIdx && joinCellsOk rRows rAttrIdx) = false := by
+    rw [Bool.and_eq_false_iff]
+    by_cases h1 : StrCells lRows lAttrIdx
+    · right
+      exact Bool.eq_false_iff.2 (fun h2 => h ⟨h1, (joinCellsOk_iff _ _).1 h2⟩)
+    · left
+      exact Bool.eq_false_iff.2 (fun h2 => h1 ((joinCellsOk_iff _ _).1 h2))
+  simp only [if_true, this, Bool.false_eq_true, if_false]
+
+/-- `apply_matcher` with a tokenizer, a non-empty candset and the token cache switched on
+    (`len(ltable) + len(rtable) < 2·len(candset)`): a present non-string value ANYWHERE in one of the two match columns
+    (referenced by the candset or not) makes `generate_tokens` raise TypeError -/
+theorem applyMatcher_cache_typeErr (a : MatcherArgs) (tk : TokObj) (toks : TokFn) (sim : SimArg → SimArg → PyV)
+    (cpu : Int) (c l r : Frame) (hv : validateMatcher a (some tk) = .ok (c, l, r))
+    (hne : c.rows ≠ []) (hsmall : l.rows.length + r.rows.length < c.rows.length * 2)
+    (hns : ¬ (Props.StrColumn l a.lAttr ∧ Props.StrColumn r a.rAttr)) :
+    applyMatcher a (some tk) toks sim cpu = .error .typeErr := by
+  rw [applyMatcher_eq, hv]
+  change matcherBody a (some tk) toks sim cpu c l r = .error .typeErr
+  unfold matcherBody
+  rw [if_neg (by intro h; rw [List.isEmpty_iff] at h; exact hne h)]
+  have hc : tokenCache (Option.map (fun tk => toks tk.returnSet) (some tk))
+      (decide (l.rows.length + r.rows.length < c.rows.length * 2))
+      (matcherLRows a l) (matcherRRows a r) ((matcherLProj a).idxOf a.lKey) ((matcherLProj a).idxOf a.lAttr)
+      ((matcherRProj a).idxOf a.rKey) ((matcherRProj a).idxOf a.rAttr) = .error .typeErr := by
+    rw [decide_eq_true hsmall]
+    exact tokenCache_typeErr _ _ _ _ _ _ _
+      (fun h => hns ⟨strColumn_of_matcherLRows a l h.1, strColumn_of_matcherRRows a r h.2⟩)
+  exact congrArg (fun x => x >>= _) hc
 
 /-! ## 5. `filter_candset`: the validation block as one function -/
 
@@ -541,7 +574,7 @@ def validateCandset (a : CandsetArgs) : Except PyErr (Frame × Frame × Frame) :
   return (c, l, r)
 
 /-- what `filter_candset` does after its validations (verbatim) -/
-def candsetBody (a : CandsetArgs) (fp : Cell → Cell → Bool) (cpu : Int) (c l r : Frame) : Except PyErr Frame := do
+def candsetBody (a : CandsetArgs) (fp : Cell → Cell → Except PyErr Bool) (cpu : Int) (c l r : Frame) : Except PyErr Frame := do
   if c.rows.isEmpty then return c else
   let lRows := l.rows.map (fun row => [row.cell (l.colIdx a.lKey), row.cell (l.colIdx a.lAttr)])
   let rRows := r.rows.map (fun row => [row.cell (r.colIdx a.rKey), row.cell (r.colIdx a.rAttr)])
@@ -556,17 +589,110 @@ def candsetBody (a : CandsetArgs) (fp : Cell → Cell → Bool) (cpu : Int) (c l
     ch.filterMapM (fun ((cr, lab) : Row × Cell) => do
       let lRow ← match Dict.get? lDict (cr.cell li) with | some x => pure x | none => throw PyErr.other
       let rRow ← match Dict.get? rDict (cr.cell ri) with | some x => pure x | none => throw PyErr.other
-      pure (if !(fp (lRow.cell (lProj.idxOf a.lAttr)) (rRow.cell (rProj.idxOf a.rAttr))) then some (cr, lab) else none)))
+      let drop ← fp (lRow.cell (lProj.idxOf a.lAttr)) (rRow.cell (rProj.idxOf a.rAttr))
+      pure (if !drop then some (cr, lab) else none)))
   let kept := chunks.flatten
   return { c with index := kept.map (·.2), rows := kept.map (·.1) }
 
-theorem filterCandset_eq (a : CandsetArgs) (fp : Cell → Cell → Bool) (cpu : Int) :
+theorem filterCandset_eq (a : CandsetArgs) (fp : Cell → Cell → Except PyErr Bool) (cpu : Int) :
     filterCandset a fp cpu = validateCandset a >>= fun p => candsetBody a fp cpu p.1 p.2.1 p.2.2 := by
   unfold filterCandset validateCandset
   simp only [bind_assoc, pure_bind]
   rfl
 
-theorem filterCandset_reject (a : CandsetArgs) (fp : Cell → Cell → Bool) (cpu : Int) (e : PyErr)
+/-- a `mapM` that succeeds still succeeds, with the same result, for any function that succeeds wherever
+    the first one does -/
+theorem except_mapM_mono {ε α β : Type} (f g : α → Except ε β) (l : List α)
+    (h : ∀ x ∈ l, ∀ y, f x = .ok y → g x = .ok y) (ys : List β) (hf : l.mapM f = .ok ys) : l.mapM g = .ok ys := by
+  induction l generalizing ys with
+  | nil => exact hf
+  | cons x l ih =>
+    rw [except_mapM_cons] at hf ⊢
+    cases hx : f x with
+    | error e => rw [hx] at hf; cases hf
+    | ok y =>
+      rw [hx] at hf
+      rw [h x List.mem_cons_self y hx]
+      cases hl : l.mapM f with
+      | error e => rw [hl] at hf; cases hf
+      | ok zs =>
+        rw [hl] at hf
+        rw [ih (fun z hz => h z (List.mem_cons_of_mem _ hz)) zs hl]
+        exact hf
+
+/-- one candidate row of `filter_candset` (verbatim) -/
+def candsetStep (a : CandsetArgs) (fp : Cell → Cell → Except PyErr Bool) (c l r : Frame) :
+    Row × Cell → Except PyErr (Option (Row × Cell)) :=
+  fun ((cr, lab) : Row × Cell) => do
+    let lRow ← match Dict.get? (buildDict (l.rows.map (fun row => [row.cell (l.colIdx a.lKey), row.cell (l.colIdx a.lAttr)]))
+        ([a.lKey, a.lAttr].idxOf a.lKey)) (cr.cell (c.colIdx a.candLKey)) with
+      | some x => pure x | none => throw PyErr.other
+    let rRow ← match Dict.get? (buildDict (r.rows.map (fun row => [row.cell (r.colIdx a.rKey), row.cell (r.colIdx a.rAttr)]))
+        ([a.rKey, a.rAttr].idxOf a.rKey)) (cr.cell (c.colIdx a.candRKey)) with
+      | some x => pure x | none => throw PyErr.other
+    let drop ← fp (lRow.cell ([a.lKey, a.lAttr].idxOf a.lAttr)) (rRow.cell ([a.rKey, a.rAttr].idxOf a.rAttr))
+    pure (if !drop then some (cr, lab) else none)
+
+theorem candsetBody_eq (a : CandsetArgs) (fp : Cell → Cell → Except PyErr Bool) (cpu : Int) (c l r : Frame) :
+    candsetBody a fp cpu c l r =
+      if c.rows.isEmpty then .ok c else
+        (chunksFor (candLabelled c) a.nJobs cpu).mapM (fun ch => ch.filterMapM (candsetStep a fp c l r)) >>= fun chunks =>
+          .ok { c with index := chunks.flatten.map (·.2), rows := chunks.flatten.map (·.1) } := rfl
+
+theorem candsetStep_mono (a : CandsetArgs) (fp : Cell → Cell → Except PyErr Bool) (fpb : Cell → Cell → Bool)
+    (hfp : ∀ x y b, fp x y = .ok b → b = fpb x y) (c l r : Frame) (x : Row × Cell) (y : Option (Row × Cell))
+    (h : candsetStep a fp c l r x = .ok y) : candsetStep a (fun x y => .ok (fpb x y)) c l r x = .ok y := by
+  obtain ⟨cr, lab⟩ := x
+  unfold candsetStep at h ⊢
+  dsimp only at h ⊢
+  cases h1 : Dict.get? (buildDict (l.rows.map (fun row => [row.cell (l.colIdx a.lKey), row.cell (l.colIdx a.lAttr)]))
+      ([a.lKey, a.lAttr].idxOf a.lKey)) (cr.cell (c.colIdx a.candLKey)) with
+  | none => rw [h1] at h; cases h
+  | some lRow =>
+    rw [h1] at h
+    cases h2 : Dict.get? (buildDict (r.rows.map (fun row => [row.cell (r.colIdx a.rKey), row.cell (r.colIdx a.rAttr)]))
+        ([a.rKey, a.rAttr].idxOf a.rKey)) (cr.cell (c.colIdx a.candRKey)) with
+    | none => rw [h2] at h; cases h
+    | some rRow =>
+      rw [h2] at h
+      cases h3 : fp (lRow.cell ([a.lKey, a.lAttr].idxOf a.lAttr)) (rRow.cell ([a.rKey, a.rAttr].idxOf a.rAttr)) with
+      | error e => simp only [h3, pure_bind] at h; cases h
+      | ok b =>
+        have hb := hfp _ _ _ h3
+        simp only [h3, pure_bind] at h
+        simp only [pure_bind]
+        rw [← hb]
+        exact h
+
+/-- MONOTONICITY in the `filter_pair`: if the call with `fp` returns a frame and every answer of `fp` agrees with
+    the total function `fpb`, the call with the never-raising `fpb` returns the same frame -/
+theorem filterCandset_ok_pure (a : CandsetArgs) (fp : Cell → Cell → Except PyErr Bool) (fpb : Cell → Cell → Bool)
+    (hfp : ∀ x y b, fp x y = .ok b → b = fpb x y) (cpu : Int) (fr : Frame)
+    (h : filterCandset a fp cpu = .ok fr) : filterCandset a (fun x y => .ok (fpb x y)) cpu = .ok fr := by
+  rw [filterCandset_eq] at h ⊢
+  cases hv : validateCandset a with
+  | error e => rw [hv] at h; cases h
+  | ok p =>
+    rw [hv] at h
+    obtain ⟨c, l, r⟩ := p
+    change candsetBody a fp cpu c l r = .ok fr at h
+    change candsetBody a (fun x y => .ok (fpb x y)) cpu c l r = .ok fr
+    rw [candsetBody_eq] at h ⊢
+    by_cases hemp : c.rows.isEmpty = true
+    · rw [if_pos hemp] at h ⊢; exact h
+    · rw [if_neg hemp] at h ⊢
+      obtain ⟨chunks, hch, hret⟩ := (except_bind_eq_ok_iff _ _ _).1 h
+      refine (except_bind_eq_ok_iff _ _ _).2 ⟨chunks, ?_, hret⟩
+      refine except_mapM_mono _ _ _ (fun ch _ ys hys => ?_) _ hch
+      rw [except_filterMapM_eq] at hys ⊢
+      cases hm : ch.mapM (candsetStep a fp c l r) with
+      | error e => rw [hm] at hys; cases hys
+      | ok zs =>
+        rw [hm] at hys
+        rw [except_mapM_mono _ _ ch (fun x _ y hy => candsetStep_mono a fp fpb hfp c l r x y hy) zs hm]
+        exact hys
+
+theorem filterCandset_reject (a : CandsetArgs) (fp : Cell → Cell → Except PyErr Bool) (cpu : Int) (e : PyErr)
     (h : validateCandset a = .error e) : filterCandset a fp cpu = .error e := by
   rw [filterCandset_eq, h]
   rfl
@@ -735,11 +861,12 @@ theorem candLabelled_length (c : Frame) : (candLabelled c).length = c.rows.lengt
   rw [← candLabelled_map_fst c, List.length_map]
 
 /-- totality (and rows) of `filter_candset` on validated arguments, candidate keys present, `< 2⁴⁰` rows -/
-theorem filterCandset_total (a : CandsetArgs) (fp : Cell → Cell → Bool) (cpu : Int) (c l r : Frame)
+theorem filterCandset_total (a : CandsetArgs) (fp : Cell → Cell → Except PyErr Bool) (cpu : Int) (c l r : Frame)
     (hv : validateCandset a = .ok (c, l, r))
     (hl : ∀ cr ∈ c.rows, cr.cell (c.colIdx a.candLKey) ∈ l.col a.lKey)
     (hr : ∀ cr ∈ c.rows, cr.cell (c.colIdx a.candRKey) ∈ r.col a.rKey)
-    (hlen : c.rows.length < 2 ^ 40) :
+    (hlen : c.rows.length < 2 ^ 40)
+    (hfp : ∀ ls ∈ l.rows, ∀ rs ∈ r.rows, ∃ b, fp (ls.cell (l.colIdx a.lAttr)) (rs.cell (r.colIdx a.rAttr)) = .ok b) :
     ∃ f, filterCandset a fp cpu = .ok f ∧ f.columns = c.columns ∧ f.dtypes = c.dtypes ∧
       f.rows.Sublist c.rows := by
   have hV := (validateCandset_ok_iff a c l r).1 hv
@@ -785,10 +912,319 @@ theorem filterCandset_total (a : CandsetArgs) (fp : Cell → Cell → Bool) (cpu
     rw [validateKeyAttr_eq, (keyTest_iff _ _).2 hV.lKeyValid]; rfl
   have hk2 : validateKeyAttr a.rKey r = .ok () := by
     rw [validateKeyAttr_eq, (keyTest_iff _ _).2 hV.rKeyValid]; rfl
-  obtain ⟨f, hf, hc1, hc2, hrows⟩ := filterCandset_rows a fp cpu c l r hV.candset hV.ltable hV.rtable
+  let fpb : Cell → Cell → Bool := fun x y => match fp x y with | .ok b => b | .error _ => false
+  have hfp' : ∀ cr ∈ c.rows, fp (lval cr) (rval cr) = .ok (fpb (lval cr) (rval cr)) := by
+    intro cr hcr
+    obtain ⟨ls, hls, -, hlv⟩ := hl' cr hcr
+    obtain ⟨rs, hrs, -, hrv⟩ := hr' cr hcr
+    obtain ⟨b, hb⟩ := hfp ls hls rs hrs
+    rw [hlv, hrv] at hb
+    show _ = Except.ok (match fp (lval cr) (rval cr) with | .ok b => b | .error _ => false)
+    rw [hb]
+  obtain ⟨f, hf, hc1, hc2, hrows⟩ := filterCandset_rows a fp fpb cpu c l r hV.candset hV.ltable hV.rtable
     (hok _ _ hV.candLKey) (hok _ _ hV.candRKey) (hok _ _ hV.lKey) (hok _ _ hV.rKey) (hok _ _ hV.lAttr) (hok _ _ hV.rAttr)
-    ht1 ht2 hk1 hk2 lval rval hl' hr'
+    ht1 ht2 hk1 hk2 lval rval hl' hr' hfp'
     (chunksFor_flatten _ _ _ (by rw [candLabelled_length]; exact hlen))
   exact ⟨f, hf, hc1, hc2, by rw [hrows]; exact List.filter_sublist⟩
+
+/-! ## 6. `filter_candset` when `filter_pair` raises -/
+
+theorem except_mapM_error_inv {ε α β : Type} (f : α → Except ε β) (l : List α) (e : ε) (h : l.mapM f = .error e) :
+    ∃ x ∈ l, f x = .error e := by
+  induction l with
+  | nil => cases h
+  | cons x l ih =>
+    rw [except_mapM_cons] at h
+    cases hx : f x with
+    | error e' =>
+      rw [hx] at h
+      cases h
+      exact ⟨x, List.mem_cons_self, hx⟩
+    | ok y =>
+      rw [hx] at h
+      cases hl : l.mapM f with
+      | error e' =>
+        rw [hl] at h
+        cases h
+        obtain ⟨z, hz, hfz⟩ := ih hl
+        exact ⟨z, List.mem_cons_of_mem _ hz, hfz⟩
+      | ok ys => rw [hl] at h; cases h
+
+theorem except_mapM_error_of_mem {ε α β : Type} (f : α → Except ε β) (l : List α) (x : α) (hx : x ∈ l) (e : ε)
+    (h : f x = .error e) : ∃ e', l.mapM f = .error e' := by
+  cases hm : l.mapM f with
+  | error e' => exact ⟨e', rfl⟩
+  | ok ys =>
+    have := except_mapM_ok_inv f l ys hm x hx
+    obtain ⟨y, hy⟩ := this
+    rw [h] at hy
+    cases hy
+where
+  except_mapM_ok_inv {ε α β : Type} (f : α → Except ε β) (l : List α) (ys : List β) (h : l.mapM f = .ok ys) :
+      ∀ x ∈ l, ∃ y, f x = .ok y := by
+    induction l generalizing ys with
+    | nil => intro x hx; cases hx
+    | cons z l ih =>
+      rw [except_mapM_cons] at h
+      cases hz : f z with
+      | error e => rw [hz] at h; cases h
+      | ok y =>
+        rw [hz] at h
+        cases hl : l.mapM f with
+        | error e => rw [hl] at h; cases h
+        | ok zs =>
+          intro x hx
+          rcases List.mem_cons.1 hx with rfl | hx
+          · exact ⟨y, hz⟩
+          · exact ih zs hl x hx
+
+/-- one candidate row whose two keys resolve: the step is `filter_pair` on the two referenced values -/
+theorem candsetStep_of_lookup (a : CandsetArgs) (fp : Cell → Cell → Except PyErr Bool) (c l r : Frame)
+    (hkl : (l.col a.lKey).Nodup) (hkr : (r.col a.rKey).Nodup) (x : Row × Cell) (ls rs : Row)
+    (hls : ls ∈ l.rows) (hrs : rs ∈ r.rows)
+    (h1 : ls.cell (l.colIdx a.lKey) = x.1.cell (c.colIdx a.candLKey))
+    (h2 : rs.cell (r.colIdx a.rKey) = x.1.cell (c.colIdx a.candRKey)) :
+    candsetStep a fp c l r x =
+      (fp (ls.cell (l.colIdx a.lAttr)) (rs.cell (r.colIdx a.rAttr)) >>= fun drop =>
+        pure (if !drop then some x else none)) := by
+  obtain ⟨cr, lab⟩ := x
+  obtain ⟨pl, hpl1, hpl2⟩ := candset_lookup l a.lKey a.lAttr _ _ hkl ⟨ls, hls, h1, rfl⟩
+  obtain ⟨pr, hpr1, hpr2⟩ := candset_lookup r a.rKey a.rAttr _ _ hkr ⟨rs, hrs, h2, rfl⟩
+  unfold candsetStep
+  simp only [hpl1, hpr1, hpl2, hpr2, pure_bind]
+
+/-- `filter_candset` RAISES `e` when the arguments are valid, every candidate key resolves, `filter_pair` raises `e` on
+    the pair of values some candidate row references, and `e` is the only exception `filter_pair` raises
+    (for `filterPairPy` / `overlapFilterPairPy`: TypeError) -/
+theorem filterCandset_raises (a : CandsetArgs) (fp : Cell → Cell → Except PyErr Bool) (cpu : Int) (c l r : Frame)
+    (hv : validateCandset a = .ok (c, l, r))
+    (hl : ∀ cr ∈ c.rows, cr.cell (c.colIdx a.candLKey) ∈ l.col a.lKey)
+    (hr : ∀ cr ∈ c.rows, cr.cell (c.colIdx a.candRKey) ∈ r.col a.rKey)
+    (hlen : c.rows.length < 2 ^ 40) (e : PyErr)
+    (honly : ∀ x y e', fp x y = .error e' → e' = e)
+    (hex : ∃ cr ∈ c.rows, ∃ ls ∈ l.rows, ∃ rs ∈ r.rows,
+      ls.cell (l.colIdx a.lKey) = cr.cell (c.colIdx a.candLKey) ∧
+      rs.cell (r.colIdx a.rKey) = cr.cell (c.colIdx a.candRKey) ∧
+      fp (ls.cell (l.colIdx a.lAttr)) (rs.cell (r.colIdx a.rAttr)) = .error e) :
+    filterCandset a fp cpu = .error e := by
+  have hV := (validateCandset_ok_iff a c l r).1 hv
+  have hkl : (l.col a.lKey).Nodup := hV.lKeyValid.1
+  have hkr : (r.col a.rKey).Nodup := hV.rKeyValid.1
+  have hflat : (chunksFor (candLabelled c) a.nJobs cpu).flatten = candLabelled c :=
+    chunksFor_flatten _ _ _ (by rw [candLabelled_length]; exact hlen)
+  have hmemc : ∀ ch ∈ chunksFor (candLabelled c) a.nJobs cpu, ∀ x ∈ ch, x.1 ∈ c.rows := by
+    intro ch hch x hx
+    have : x ∈ candLabelled c := by rw [← hflat]; exact List.mem_flatten.2 ⟨ch, hch, hx⟩
+    exact (List.of_mem_zip (a := x.1) (b := x.2) this).1
+  obtain ⟨cr, hcr, ls, hls, rs, hrs, h1, h2, hfe⟩ := hex
+  rw [filterCandset_eq, hv]
+  change candsetBody a fp cpu c l r = .error e
+  rw [candsetBody_eq, if_neg (by intro h; rw [List.isEmpty_iff] at h; rw [h] at hcr; cases hcr)]
+  have key : (chunksFor (candLabelled c) a.nJobs cpu).mapM (fun ch => ch.filterMapM (candsetStep a fp c l r)) = .error e := by
+    apply except_mapM_error
+    · intro ch hch e' he'
+      rw [except_filterMapM_eq] at he'
+      cases hm : ch.mapM (candsetStep a fp c l r) with
+      | ok ys => rw [hm] at he'; cases he'
+      | error e'' =>
+        rw [hm] at he'
+        cases he'
+        obtain ⟨x, hx, hfx⟩ := except_mapM_error_inv _ _ _ hm
+        have hxc := hmemc ch hch x hx
+        obtain ⟨ls', hls', hk1⟩ := List.mem_map.1 (hl x.1 hxc)
+        obtain ⟨rs', hrs', hk2⟩ := List.mem_map.1 (hr x.1 hxc)
+        rw [candsetStep_of_lookup a fp c l r hkl hkr x ls' rs' hls' hrs' hk1 hk2] at hfx
+        cases hf : fp (ls'.cell (l.colIdx a.lAttr)) (rs'.cell (r.colIdx a.rAttr)) with
+        | ok b => rw [hf] at hfx; cases hfx
+        | error e3 =>
+          rw [hf] at hfx
+          cases hfx
+          exact honly _ _ _ hf
+    · -- the chunk holding the offending candidate row fails
+      have hx0 : ∃ x ∈ candLabelled c, x.1 = cr := by
+        have : cr ∈ (candLabelled c).map Prod.fst := by rw [candLabelled_map_fst]; exact hcr
+        obtain ⟨x, hx, hxe⟩ := List.mem_map.1 this
+        exact ⟨x, hx, hxe⟩
+      obtain ⟨x, hx, hxe⟩ := hx0
+      rw [← hflat] at hx
+      obtain ⟨ch, hch, hxch⟩ := List.mem_flatten.1 hx
+      have hstep : candsetStep a fp c l r x = .error e := by
+        rw [candsetStep_of_lookup a fp c l r hkl hkr x ls rs hls hrs (by rw [hxe]; exact h1) (by rw [hxe]; exact h2), hfe]
+        rfl
+      obtain ⟨e', he'⟩ := except_mapM_error_of_mem _ ch x hxch e hstep
+      refine ⟨ch, hch, e', ?_⟩
+      rw [except_filterMapM_eq, he']
+      rfl
+  rw [key]
+  rfl
+
+/-! ## 7. `apply_matcher` without the token cache when a referenced value is not a string -/
+
+/-- `apply_matcher` with a tokenizer and WITHOUT the token cache (`len(ltable) + len(rtable) ≥ 2·len(candset)`): valid
+    arguments, every candidate key present in its table, and a candidate row referencing two PRESENT values one of which
+    is not a string ⇒ TypeError (values that no candidate row references are never tokenized on this path). -/
+theorem applyMatcher_nocache_typeErr (a : MatcherArgs) (tk : TokObj) (toks : TokFn) (sim : SimArg → SimArg → PyV)
+    (cpu : Int) (c l r : Frame) (hv : validateMatcher a (some tk) = .ok (c, l, r))
+    (hl : ∀ cr ∈ c.rows, cr.cell (c.colIdx a.candLKey) ∈ l.col a.lKey)
+    (hr : ∀ cr ∈ c.rows, cr.cell (c.colIdx a.candRKey) ∈ r.col a.rKey)
+    (hlen : c.rows.length < 2 ^ 40)
+    (hbig : ¬ (l.rows.length + r.rows.length < c.rows.length * 2))
+    (hex : ∃ cr ∈ c.rows, ∃ ls ∈ l.rows, ∃ rs ∈ r.rows,
+      ls.cell (l.colIdx a.lKey) = cr.cell (c.colIdx a.candLKey) ∧
+      rs.cell (r.colIdx a.rKey) = cr.cell (c.colIdx a.candRKey) ∧
+      (ls.cell (l.colIdx a.lAttr)).isMissing = false ∧ (rs.cell (r.colIdx a.rAttr)).isMissing = false ∧
+      ¬ ((ls.cell (l.colIdx a.lAttr)).isStr = true ∧ (rs.cell (r.colIdx a.rAttr)).isStr = true)) :
+    applyMatcher a (some tk) toks sim cpu = .error .typeErr := by
+  have hV := (validateMatcher_ok_iff a (some tk) c l r).1 hv
+  have hlk : ((matcherLRows a l).map (·.cell ((matcherLProj a).idxOf a.lKey))).Nodup := by
+    rw [matcherLRows_keys]; exact hV.lKeyValid.1
+  have hrk : ((matcherRRows a r).map (·.cell ((matcherRProj a).idxOf a.rKey))).Nodup := by
+    rw [matcherRRows_keys]; exact hV.rKeyValid.1
+  have hflat : (chunksFor c.rows a.nJobs cpu).flatten = c.rows := chunksFor_flatten _ _ _ hlen
+  have hmem : ∀ ch ∈ chunksFor c.rows a.nJobs cpu, ∀ cr ∈ ch, cr ∈ c.rows := by
+    intro ch hch cr hcr
+    rw [← hflat]; exact List.mem_flatten.2 ⟨ch, hch, hcr⟩
+  have hsomeL : ∀ cr ∈ c.rows, (Dict.get? (buildDict (matcherLRows a l) ((matcherLProj a).idxOf a.lKey))
+      (cr.cell (c.colIdx a.candLKey))).isSome := by
+    intro cr hcr
+    apply buildDict_isSome_of_mem _ _ hlk
+    rw [matcherLRows_keys]; exact hl cr hcr
+  have hsomeR : ∀ cr ∈ c.rows, (Dict.get? (buildDict (matcherRRows a r) ((matcherRProj a).idxOf a.rKey))
+      (cr.cell (c.colIdx a.candRKey))).isSome := by
+    intro cr hcr
+    apply buildDict_isSome_of_mem _ _ hrk
+    rw [matcherRRows_keys]; exact hr cr hcr
+  obtain ⟨cr0, hcr0, ls, hls, rs, hrs, hk1, hk2, hm1, hm2, hns⟩ := hex
+  -- the per-chunk work, with the cache switched off
+  let step : List Row → Except PyErr (List Row) := fun ch => do
+    let rows ← applyMatcherSplit a (c.colIdx a.candLKey) (c.colIdx a.candRKey) (matcherLRows a l) (matcherRRows a r)
+        ((matcherLProj a).idxOf a.lKey) ((matcherLProj a).idxOf a.lAttr)
+        ((matcherRProj a).idxOf a.rKey) ((matcherRProj a).idxOf a.rAttr)
+        (matcherOutCfg a) (some (toks tk.returnSet)) sim none ch
+    mkRows rows (matcherHeader a)
+  have key : (chunksFor c.rows a.nJobs cpu).mapM step = .error .typeErr := by
+    apply except_mapM_error
+    · intro ch hch e' he'
+      show e' = PyErr.typeErr
+      have he'' : (applyMatcherSplit a (c.colIdx a.candLKey) (c.colIdx a.candRKey) (matcherLRows a l) (matcherRRows a r)
+          ((matcherLProj a).idxOf a.lKey) ((matcherLProj a).idxOf a.lAttr)
+          ((matcherRProj a).idxOf a.rKey) ((matcherRProj a).idxOf a.rAttr)
+          (matcherOutCfg a) (some (toks tk.returnSet)) sim none ch >>= fun rows => mkRows rows (matcherHeader a))
+          = .error e' := he'
+      rw [applyMatcherSplit_eq_mapM] at he''
+      cases hm : ch.mapM (matcherRowM a (c.colIdx a.candLKey) (c.colIdx a.candRKey) (matcherLRows a l) (matcherRRows a r)
+          ((matcherLProj a).idxOf a.lKey) ((matcherLProj a).idxOf a.lAttr)
+          ((matcherRProj a).idxOf a.rKey) ((matcherRProj a).idxOf a.rAttr)
+          (matcherOutCfg a) (some (toks tk.returnSet)) sim none) with
+      | error e2 =>
+        rw [hm] at he''
+        cases he''
+        obtain ⟨cr, hcr, hfx⟩ := except_mapM_error_inv _ _ _ hm
+        exact matcherRowM_none_error _ _ _ _ _ _ _ _ _ _ _ _ _ _ (hsomeL cr (hmem ch hch cr hcr))
+          (hsomeR cr (hmem ch hch cr hcr)) hfx
+      | ok ys =>
+        rw [hm] at he''
+        exfalso
+        have hw : ∀ row ∈ ys.filterMap id, row.length = (matcherHeader a).length := by
+          intro row hrow
+          obtain ⟨y, hy, hyr⟩ := List.mem_filterMap.1 hrow
+          -- `y` is the outcome of some candidate row of the chunk
+          have : ∀ (l' : List Row) (ys' : List (Option Row)), l'.mapM (matcherRowM a (c.colIdx a.candLKey)
+              (c.colIdx a.candRKey) (matcherLRows a l) (matcherRRows a r)
+              ((matcherLProj a).idxOf a.lKey) ((matcherLProj a).idxOf a.lAttr)
+              ((matcherRProj a).idxOf a.rKey) ((matcherRProj a).idxOf a.rAttr)
+              (matcherOutCfg a) (some (toks tk.returnSet)) sim none) = .ok ys' → ∀ y ∈ ys', ∃ cr ∈ l',
+              matcherRowM a (c.colIdx a.candLKey) (c.colIdx a.candRKey) (matcherLRows a l) (matcherRRows a r)
+              ((matcherLProj a).idxOf a.lKey) ((matcherLProj a).idxOf a.lAttr)
+              ((matcherRProj a).idxOf a.rKey) ((matcherRProj a).idxOf a.rAttr)
+              (matcherOutCfg a) (some (toks tk.returnSet)) sim none cr = .ok y := by
+            intro l'
+            induction l' with
+            | nil => intro ys' h y hy; cases h; cases hy
+            | cons x l' ih =>
+              intro ys' h y hy
+              rw [except_mapM_cons] at h
+              cases hx : matcherRowM a (c.colIdx a.candLKey) (c.colIdx a.candRKey) (matcherLRows a l) (matcherRRows a r)
+                  ((matcherLProj a).idxOf a.lKey) ((matcherLProj a).idxOf a.lAttr)
+                  ((matcherRProj a).idxOf a.rKey) ((matcherRProj a).idxOf a.rAttr)
+                  (matcherOutCfg a) (some (toks tk.returnSet)) sim none x with
+              | error e => rw [hx] at h; cases h
+              | ok y0 =>
+                rw [hx] at h
+                cases hl' : l'.mapM (matcherRowM a (c.colIdx a.candLKey) (c.colIdx a.candRKey) (matcherLRows a l)
+                    (matcherRRows a r) ((matcherLProj a).idxOf a.lKey) ((matcherLProj a).idxOf a.lAttr)
+                    ((matcherRProj a).idxOf a.rKey) ((matcherRProj a).idxOf a.rAttr)
+                    (matcherOutCfg a) (some (toks tk.returnSet)) sim none) with
+                | error e => rw [hl'] at h; cases h
+                | ok zs =>
+                  rw [hl'] at h
+                  cases h
+                  rcases List.mem_cons.1 hy with rfl | hy
+                  · exact ⟨x, List.mem_cons_self, hx⟩
+                  · obtain ⟨cr, hcr, h'⟩ := ih zs hl' y hy
+                    exact ⟨cr, List.mem_cons_of_mem _ hcr, h'⟩
+          obtain ⟨cr, -, hcr'⟩ := this ch ys hm y hy
+          have hspec := matcherRowM_none_ok _ _ _ _ _ _ _ _ _ _ _ _ _ _ hcr'
+          have hy' : y = some row := hyr
+          rw [hy'] at hspec
+          exact matcherTableSpec_length a (some tk) toks sim c l r cr row hspec.symm
+        rw [show (Except.map (fun x => x.filterMap id) (Except.ok ys) : Except PyErr (List Row)) =
+          .ok (ys.filterMap id) from rfl, except_ok_bind, mkRows_of_length _ _ hw] at he''
+        cases he''
+    · -- the chunk holding the offending candidate row fails
+      rw [← hflat] at hcr0
+      obtain ⟨ch, hch, hxch⟩ := List.mem_flatten.1 hcr0
+      have hrow : matcherRowM a (c.colIdx a.candLKey) (c.colIdx a.candRKey) (matcherLRows a l) (matcherRRows a r)
+          ((matcherLProj a).idxOf a.lKey) ((matcherLProj a).idxOf a.lAttr)
+          ((matcherRProj a).idxOf a.rKey) ((matcherRProj a).idxOf a.rAttr)
+          (matcherOutCfg a) (some (toks tk.returnSet)) sim none cr0 = .error .typeErr := by
+        rw [matcherRowM_none]
+        have hL : Dict.get? (buildDict (matcherLRows a l) ((matcherLProj a).idxOf a.lKey)) (cr0.cell (c.colIdx a.candLKey))
+            = some (((matcherLProj a).map l.colIdx).map ls.cell) := by
+          have := buildDict_get (matcherLRows a l) ((matcherLProj a).idxOf a.lKey) hlk
+            (((matcherLProj a).map l.colIdx).map ls.cell)
+            (List.mem_map_of_mem (f := fun row : Row => ((matcherLProj a).map l.colIdx).map row.cell) hls)
+          rw [← hk1]
+          have hkc : Row.cell (((matcherLProj a).map l.colIdx).map ls.cell) ((matcherLProj a).idxOf a.lKey)
+              = ls.cell (l.colIdx a.lKey) := (projection_faithful l a.lKey a.lAttr a.lOut ls).1
+          rw [← hkc]; exact this
+        have hR : Dict.get? (buildDict (matcherRRows a r) ((matcherRProj a).idxOf a.rKey)) (cr0.cell (c.colIdx a.candRKey))
+            = some (((matcherRProj a).map r.colIdx).map rs.cell) := by
+          have := buildDict_get (matcherRRows a r) ((matcherRProj a).idxOf a.rKey) hrk
+            (((matcherRProj a).map r.colIdx).map rs.cell)
+            (List.mem_map_of_mem (f := fun row : Row => ((matcherRProj a).map r.colIdx).map row.cell) hrs)
+          rw [← hk2]
+          have hkc : Row.cell (((matcherRProj a).map r.colIdx).map rs.cell) ((matcherRProj a).idxOf a.rKey)
+              = rs.cell (r.colIdx a.rKey) := (projection_faithful r a.rKey a.rAttr a.rOut rs).1
+          rw [← hkc]; exact this
+        rw [hL, hR]
+        have e1 : Row.cell (((matcherLProj a).map l.colIdx).map ls.cell) ((matcherLProj a).idxOf a.lAttr)
+            = ls.cell (l.colIdx a.lAttr) := (projection_faithful l a.lKey a.lAttr a.lOut ls).2.1
+        have e2 : Row.cell (((matcherRProj a).map r.colIdx).map rs.cell) ((matcherRProj a).idxOf a.rAttr)
+            = rs.cell (r.colIdx a.rAttr) := (projection_faithful r a.rKey a.rAttr a.rOut rs).2.1
+        dsimp only
+        rw [e1, e2, hm1, hm2, if_pos]
+        cases h1 : (ls.cell (l.colIdx a.lAttr)).isStr <;> cases h2 : (rs.cell (r.colIdx a.rAttr)).isStr <;> simp_all
+      obtain ⟨e', he'⟩ := except_mapM_error_of_mem _ ch cr0 hxch _ hrow
+      refine ⟨ch, hch, e', ?_⟩
+      show (applyMatcherSplit a (c.colIdx a.candLKey) (c.colIdx a.candRKey) (matcherLRows a l) (matcherRRows a r)
+          ((matcherLProj a).idxOf a.lKey) ((matcherLProj a).idxOf a.lAttr)
+          ((matcherRProj a).idxOf a.rKey) ((matcherRProj a).idxOf a.rAttr)
+          (matcherOutCfg a) (some (toks tk.returnSet)) sim none ch >>= fun rows => mkRows rows (matcherHeader a))
+          = .error e'
+      rw [applyMatcherSplit_eq_mapM, he']
+      rfl
+  rw [applyMatcher_eq, hv]
+  change matcherBody a (some tk) toks sim cpu c l r = .error .typeErr
+  unfold matcherBody
+  rw [if_neg (by intro h; rw [List.isEmpty_iff] at h; rw [h] at hcr0; cases hcr0)]
+  have hc : tokenCache (Option.map (fun tk => toks tk.returnSet) (some tk))
+      (decide (l.rows.length + r.rows.length < c.rows.length * 2))
+      (matcherLRows a l) (matcherRRows a r) ((matcherLProj a).idxOf a.lKey) ((matcherLProj a).idxOf a.lAttr)
+      ((matcherRProj a).idxOf a.rKey) ((matcherRProj a).idxOf a.rAttr) = .ok none := by
+    rw [decide_eq_false hbig]; rfl
+  refine Eq.trans (congrArg (fun x => x >>= _) hc) ?_
+  rw [except_ok_bind]
+  exact congrArg (fun x => x >>= _) key
 
 end SSJ
